@@ -29,6 +29,12 @@ def cases(tier, seed):
         c = dict(c)
         c["delay"] = {"mode": "choice", "arity": 3}
         out.append((sc + "/shipped", c))
+    bat = list(common.batch_scope(lvl))[::4 if tier != "thorough" else 1]
+    for sc, c in common.add_algs(bat, lambda c: common.batch_algs(c, lvl)):
+        out.append((sc, c))
+    for sc, c in common.add_algs(common.wide_scope(lvl),
+                                 lambda c: common.wide_algs(c, lvl)):
+        out.append((sc, dict(c, delay={"mode": "choice", "arity": 3})))
     adv = base[::5] if tier != "thorough" else base[::2]
     for sc, c in adv:
         for alg in ({"kind": "advqueue"}, {"kind": "advbatch", "p": 2,
